@@ -10,6 +10,7 @@ import (
 	"strconv"
 	"strings"
 	"sync"
+	"time"
 
 	"github.com/bilibili/gengine/builder"
 	"github.com/bilibili/gengine/context"
@@ -227,7 +228,13 @@ func catalogue(rec *recorder) map[string]interface{} {
 		"Mix3":  func(a uint8, s string, c int32) int32 { rec.add("Mix3", a, s, c); return c },
 		"NoRet": func() { rec.add("NoRet") },
 		"Boom":  func() { panic("catalogue Boom") },
-		"Hold":  func(n string) { rec.add("Hold", n); if rec.gate != nil { rec.gate.Hold(n) } },
+		"Hold": func(n string) {
+			rec.add("Hold", n)
+			if rec.gate != nil {
+				rec.gate.Hold(n)
+			}
+			rec.add("Unheld", n)
+		},
 	}
 }
 
@@ -556,6 +563,7 @@ type lCase struct {
 	Inject []injDesc `json:"inject"`
 	Tree   bool      `json:"tree"`
 	Twice  bool      `json:"twice"` // execute the rule set twice on the same builder/engine (C15)
+	Hold   string    `json:"hold"`  // Hold("<name>") blocks until the adversary releases it (C18)
 }
 
 type lObs struct {
@@ -565,6 +573,8 @@ type lObs struct {
 	ErrMsg  string          `json:"errmsg,omitempty"`
 	Cites   [][2]int        `json:"cites"`
 	HasRet  bool            `json:"hasret"`
+	Held    bool            `json:"held"`
+	During  int             `json:"during"` // calls recorded while the child was held
 	Ret     *tval           `json:"ret,omitempty"`
 	Results map[string]tval `json:"results"`
 	Calls   []callRec       `json:"calls"`
@@ -578,7 +588,7 @@ var citeRe = regexp.MustCompile(`line (\d+), column:? ?(\d+)`)
 func runLangOnce(rb *builder.RuleBuilder, c *lCase, rec *recorder, builts []*built, obs *lObs) {
 	g := engine.NewGengine()
 	var err error
-	func() {
+	run := func() {
 		defer func() {
 			if r := recover(); r != nil {
 				obs.Class = "panic"
@@ -586,7 +596,39 @@ func runLangOnce(rb *builder.RuleBuilder, c *lCase, rec *recorder, builts []*bui
 			}
 		}()
 		err = g.Execute(rb, true)
-	}()
+	}
+	if c.Hold == "" {
+		run()
+	} else {
+		gt := newGate(c.Hold)
+		rec.gate = gt
+		done := make(chan struct{})
+		go func() { run(); close(done) }()
+		select {
+		case <-gt.reached:
+			obs.Held = true
+			count := func() int { rec.mu.Lock(); defer rec.mu.Unlock(); return len(rec.calls) }
+			before, last := count(), count()
+			for {
+				time.Sleep(25 * time.Millisecond)
+				now := count()
+				if now == last {
+					break
+				}
+				last = now
+			}
+			obs.During = last - before
+			close(gt.release)
+		case <-done:
+		case <-time.After(5 * time.Second):
+		}
+		select {
+		case <-done:
+		case <-time.After(8 * time.Second):
+			obs.Class = "panic"
+			obs.ErrMsg = "harness: the call did not return"
+		}
+	}
 	if obs.Class != "panic" {
 		if err != nil {
 			obs.Class = "error"
